@@ -278,6 +278,8 @@ type Conn struct {
 	closed    bool
 	node      string
 	faultable bool
+	osPipe    bool          // one end of a simulated operating system pipe
+	anc       []interface{} // file descriptors passed towards this side
 	rdeadline time.Time
 	wdeadline time.Time
 }
@@ -734,6 +736,10 @@ func (c *Conn) Close() error {
 	c.closed = true
 	c.mu.Unlock()
 	zzsim.Event("close pair=%d side=%d", c.pair, c.side)
+	if c.osPipe {
+		c.closeGraceful()
+		return nil
+	}
 	if c.nw.cfg.CloseErr > 0 {
 		c.wr.mu.Lock()
 		gone := c.wr.reset || c.wr.rclosed
@@ -951,6 +957,43 @@ func Pipe() (*Conn, *Conn) {
 	a, b := nw.newPair(Addr{"pipe", fmt.Sprintf("pipe-%d-a", n)}, Addr{"pipe", fmt.Sprintf("pipe-%d-b", n)}, true, node, node)
 	a.faultable, b.faultable = false, false
 	return a, b
+}
+
+// OSPipe returns the write end and the read end of a simulated operating
+// system pipe: one direction of a pair, never reset, never closed abortively,
+// outside the reach of the fault plan (a pipe does not fail; its ends get
+// closed).
+func OSPipe() (w *Conn, r *Conn) {
+	nw := current()
+	if nw == nil {
+		panic("simnet: no simulation active")
+	}
+	node := zzsim.Node()
+	n := len(nw.Conns())
+	a, b := nw.newPair(Addr{"ospipe", fmt.Sprintf("ospipe-%d-w", n)}, Addr{"ospipe", fmt.Sprintf("ospipe-%d-r", n)}, false, node, node)
+	a.faultable, b.faultable = false, false
+	a.osPipe, b.osPipe = true, true
+	return a, b
+}
+
+// Ancillary queues something that travels beside the bytes towards this side
+// (a file descriptor passed over a unix socket).
+func (c *Conn) Ancillary(x interface{}) {
+	c.mu.Lock()
+	c.anc = append(c.anc, x)
+	c.mu.Unlock()
+}
+
+// TakeAncillary takes up to n of the things queued for this side.
+func (c *Conn) TakeAncillary(n int) []interface{} {
+	c.mu.Lock()
+	defer c.mu.Unlock()
+	if n > len(c.anc) {
+		n = len(c.anc)
+	}
+	out := c.anc[:n:n]
+	c.anc = c.anc[n:]
+	return out
 }
 
 // BufferedPair returns a connected pair without a listener (harness API).
